@@ -642,6 +642,16 @@ func C04(c Ctx) *report.Report {
 	o.Pmtp, o.Lppd, o.Rewards, o.Epochs, o.Locks = false, false, false, false, true
 	o.Weights = map[int]int{1: 2, 2: 8, 3: 4, 4: 5, 5: 8, 6: 5, 7: 1, 8: 0, 9: 0}
 	hs = append(hs, RunClpHistories(c, rep, rng, o, &next)...)
+	// pools that carry the liabilities and custody of real margin positions: the swaps and liquidity changes of margin
+	// histories (incl. removals by units), against the same model and the same backing-per-unit clause
+	{
+		mnext := 7000000
+		for _, mh := range RunMarginHistories(c, rep, rng, c.N(24, 300), 45, &mnext) {
+			if len(mh.ClpSteps) > 0 {
+				hs = append(hs, History{ID: 6000 + mh.ID, Env: mh.Env, Steps: mh.ClpSteps, Desc: mh.Desc})
+			}
+		}
+	}
 	for _, h := range hs {
 		MonBacking(rep, h)
 		MonUnits(rep, h)
